@@ -5,7 +5,7 @@ Tie obligations for the PUBLIC one-line wrappers of src/read.rs (helper t6r2): `
 `by_name`, `by_name_decrypt`.  Each is an equation between the translated wrapper and the translated
 `by_*_with_optional_password` (tied to the model in `Tie/ReaderGlue2.lean`):
 
-  by_index_eq / by_name_eq'      no password is passed; an `Ok(Err(InvalidPassword))` of the inner function (an AES entry
+  by_index_eq / by_name_pub_eq      no password is passed; an `Ok(Err(InvalidPassword))` of the inner function (an AES entry
                                  opened without a password) becomes `Err(UnsupportedArchive(PASSWORD_REQUIRED))`; the
                                  inner function's stores are passed on under the label `self`
   by_index_decrypt_eq / by_name_decrypt_eq
@@ -40,7 +40,7 @@ theorem by_index_decrypt_eq (ext : GExt) (z : Gen.ZipArchive) (i : UInt64) (pw :
   unfold Gen.ZipArchive.by_index_decrypt
   msimp
 
-theorem by_name_eq' (ext : GExt) (z : Gen.ZipArchive) (name : Bytes) :
+theorem by_name_pub_eq (ext : GExt) (z : Gen.ZipArchive) (name : Bytes) :
     Gen.ZipArchive.by_name ext z name =
       (Gen.ZipArchive.by_name_with_optional_password ext z name none >>= fun r =>
         pwRequired ([] ++ Rs.Stores.via "self" r.2) r.1) := by
